@@ -103,6 +103,22 @@ def corpus_defs(tier):
         av1('{"color", "tools"}', True),
         av1('{"operating"}', q),
     ], rand=[dict(gen='vp9hdr', n=0, rel='none', facets=FR), dict(gen='nallist', n=0, rel='none', facets=FR)])
+    # --- modes: the same behaviour in different execution modes / sinks / alias paths (C17) ---------
+    d['modes'] = dict(trace='TraceMuxide', attach_others=True, mc=[
+        _mc(_c('finish', '{"h264"}', '{"aac"}', 2, 1, 3 if q else 4), rel='modes', facets=F_ST),
+        _mc(_c('av', '{"h265", "vp9"}', '{"opus"}', 2, 1, 3), rel='modes', facets=F_ST),
+        _mc(_c('av', '{"h264", "av1"}', '{"none"}', 2, 0, 2), rel='modes', facets=F_ST),
+    ], rand=[dict(gen='mux', n=20 if q else 300, rel='modes', facets=F_ST)])
+    # --- extreme: argument extremes for every entry point (C12), and mutated bitstream headers -------
+    d['extreme'] = dict(trace='TraceMuxide', rand=[dict(gen='extreme', n=300 if q else 5000, rel=None, facets=None)])
+    d['extremefrag'] = dict(trace='TraceFrag', rand=[dict(gen='extremefrag', n=100 if q else 2000, rel=None, facets=None)])
+    d['mutbytes'] = dict(trace='TraceFn', kind='fnlist', gen='mutbytes')
+    d['mutframes'] = dict(trace='TraceMuxide', rand=[dict(gen='mutframes', n=0, rel=None, facets=None)])
+    # --- bound: numeric embedding, values just below / on / above the 32-bit field limits (C16) -------
+    d['bound'] = dict(trace='TraceMuxide', rand=[dict(gen='bound', n=0, rel=None, facets=None)])
+    d['boundfrag'] = dict(trace='TraceFrag', rand=[dict(gen='boundfrag', n=0, rel=None, facets=None)])
+    # --- cli: the built muxide binary vs. the in-process library (C20) -----------------------------
+    d['cli'] = dict(trace='TraceCli', rand=[dict(gen='cli', n=0, rel=None, facets=None)], cli_info=True)
     return d
 
 
@@ -169,6 +185,30 @@ def run(ctx, name, cdir):
     d = defs[name]
     if d.get('kind') == 'fnt':
         return run_fnt(ctx, name, d, cdir)
+    if d.get('kind') == 'fnlist':
+        strings = gen.generate(d['gen'], 0, ctx.seed, ctx.tier)
+        inp = os.path.join(cdir, 'strings.ndjson')
+        with open(inp, 'w') as f:
+            for b in strings:
+                f.write(json.dumps(b) + '\n')
+        outdir = os.path.join(cdir, 'fnl')
+        hr = core.run_harness(ctx, ['fnlist', '--in', inp, '--out', outdir, '--shards', '8'])
+        shard_files = sorted(glob.glob(os.path.join(outdir, 'shard_*.ndjson')))
+        sigs, consumed, errors = core.run_trace_shards(ctx, d['trace'], shard_files, os.path.join(cdir, 'tv'))
+        res = {'name': name, 'errors': errors, 'instances': hr.get('instances', 0), 'events': consumed, 'shards': len(shard_files),
+               'mc_runs': [], 'samples': [strings[0], strings[len(strings) // 2]] if strings else [],
+               'nontrivial': {'*': len({json.dumps(b) for b in strings})}, 'sigs': []}
+        seen = {}
+        for s_ in sigs:
+            kk = tuple(s_['sig'])
+            seen[kk] = seen.get(kk, 0) + 1
+            e = {'sig': s_['sig'], 'inst': s_['inst'], 'ev': s_['ev'], 'module': d['trace']}
+            if seen[kk] <= 2 and s_['inst'] < len(strings):
+                e['line'] = {'fnbytes': strings[s_['inst']]}
+            res['sigs'].append(e)
+        shutil.rmtree(outdir, ignore_errors=True)
+        shutil.rmtree(os.path.join(cdir, 'tv'), ignore_errors=True)
+        return res
     lines = []
     res = {'name': name, 'mc_runs': [], 'mc_states': 0, 'mc_generated': 0, 'behaviours': 0, 'random_instances': 0,
            'errors': []}
@@ -212,6 +252,12 @@ def run(ctx, name, cdir):
                 o['cfg']['facets'] = g['facets']
         res['random_instances'] += len(gl)
         lines += gl
+    if d.get('attach_others'):
+        import random as _r
+        rr = _r.Random(ctx.seed)
+        others = [{'cfg': o['cfg'], 'calls': o['calls']} for o in gen.generate('mux', 6, ctx.seed + 17, 'quick')]
+        for o in lines:
+            o['others'] = rr.sample(others, 2)
     if res['errors']:
         return res
     r2 = run_lines(ctx, name, lines, cdir, trace=d['trace'], harness_cmd=d.get('harness', 'replay'), inst_div=d.get('inst_div', 8))
@@ -242,6 +288,12 @@ def run_lines(ctx, name, lines, cdir, trace=None, harness_cmd=None, inst_div=Non
     outdir = os.path.join(cdir, 'trace')
     shards = 1 if len(lines) < 4 else 16
     hr = core.run_harness(ctx, [harness_cmd, '--in', inp, '--out', outdir, '--shards', str(shards)])
+    if 'hang_line' in hr:
+        k = hr['hang_line']
+        shutil.rmtree(outdir, ignore_errors=True)
+        return {'errors': [], 'instances': 1, 'events': 0, 'shards': 0, 'nontrivial': {}, 'samples': [],
+                'sigs': [{'sig': ['C12', 'Terminates', 'call', 'hang'], 'inst': k * 8, 'ev': 0, 'module': trace,
+                          'line': lines[k] if 0 <= k < len(lines) else None}]}
     shard_files = sorted(glob.glob(os.path.join(outdir, 'shard_*.ndjson')))
     sigs, consumed, errors = core.run_trace_shards(ctx, trace, shard_files, os.path.join(cdir, 'tv'))
     res['errors'] += errors
